@@ -31,7 +31,7 @@ def v1_grid(long_labels=True, near=0):
     ks = [0, 2, 3] if Q else [0, 2, 3, 4, 5]
     for k1 in ks:
         for k2 in ks[:2] if Q else ks[:3]: g.append(('beat_data', {'k1': k1, 'k2': k2, 'near': near}))
-    for k in ([0, 1, 2, 3] if Q else [0, 1, 2, 3, 8, 512]):
+    for k in ([0, 1, 2, 3] if Q else [0, 1, 2, 3, 8, 128]):
         g.append(('high_res', {'k1': k})); g.append(('overview', {'k1': k}))
     masks = [0x00, 0xFF, 0xA5, 0x01, 0x80] if Q else [0x00, 0xFF, 0xA5, 0x5A, 0x01, 0x80, 0x3C, 0x81]
     for kind in ('quick_cues', 'loops'):
